@@ -151,6 +151,7 @@ pub fn tm_any() -> impl Strategy<Value = Tm> {
         1 => (0u8..4).prop_map(Tm::Di),
         1 => (0u8..2).prop_map(Tm::Nop),
         1 => any::<u8>().prop_map(Tm::Raw),
+        1 => Just(Tm::Stop),
     ]
 }
 
